@@ -43,7 +43,9 @@ def r09_1(ctx):
         try:
             state, haz = affine.point_map(fn)
         except affine.Undecided as e:
-            out.undecided(fn.qname, f"point map not a recognised linear form: {e}", where=fn.where())
+            # not a polynomial the symbolic engine can read off (a conditional, a helper ...): the map is observed on
+            # the repository's own point arithmetic instead, on a grid of arguments that includes the special values
+            _point_map_by_runs(ctx, out, fn, name, str(e))
             continue
         show = f"x' = {poly.show(state['_x'])}; y' = {poly.show(state['_y'])}"
         if haz:
@@ -77,6 +79,49 @@ def r09_1(ctx):
         else:
             out.ok(fn.qname, f"{kind}: {show}", where=fn.where())
     return out
+
+
+def _point_map_by_runs(ctx, out, fn, name, why):
+    """abstract runs (W) of Point2D.move / scale / rotate on rules/pointworld.py: the new coordinates are those of the
+    documented affine map for every argument of a grid with the values special-cased most easily (0, 1, -1)"""
+    from fractions import Fraction as Fr
+    from rules.pointworld import World
+    from verifkit.finite import Raised, Undecided
+    X, Y = Fr(3, 2), Fr(-5)
+    vals = [Fr(0), Fr(1), Fr(-1), Fr(2), Fr(1, 3), 1, 1.0, 2.5]
+    if name == "move":
+        cases = [((a, b), (X + a, Y + b)) for a in vals for b in vals]
+    elif name == "scale":
+        cases = [((a, b), (X * a, Y * b)) for a in vals for b in vals]
+    else:
+        cases = [((t,), (X * math.cos(t) - Y * math.sin(t), X * math.sin(t) + Y * math.cos(t))) for t in (0.0, 0.75, -2.0, math.pi / 2)]
+    wrong = []
+    for args, want in cases:
+        W = World(ctx)
+        p = W.point(X, Y)
+        try:
+            call_args = [W.point(*args)] if name == "move" else list(args)
+            got = W.call(name, p, *call_args)
+        except Undecided as ex:
+            out.undecided(fn.qname, f"point map not a recognised linear form ({why}) and not interpretable: {ex}", where=fn.where())
+            return
+        except (Raised, TypeError, ValueError, AttributeError, ZeroDivisionError) as ex:
+            wrong.append((args, f"raises {type(ex).__name__}"))
+            continue
+        xy = W.xy(p)
+        close = all(abs(float(g) - float(w)) <= 1e-12 * max(1.0, abs(float(w))) for g, w in zip(xy, want))
+        exact_ok = name == "rotate" or all(isinstance(a, float) for a in args) or tuple(xy) == tuple(want) or \
+            any(isinstance(a, float) for a in args)
+        if not close or not exact_ok:
+            wrong.append((args, f"gives {xy}, required {want}"))
+        elif got is not p:
+            wrong.append((args, "does not return the same object"))
+    if wrong:
+        out.bad(fn.qname, f"point map is not the documented affine map (observed on {len(cases)} arguments)", where=fn.where(),
+                detail=f"point ({X}, {Y}): {name}{tuple(str(a) for a in wrong[0][0])} {wrong[0][1]} ({len(wrong)} of {len(cases)} wrong)")
+    else:
+        out.ok(fn.qname, f"affine map observed on {len(cases)} arguments incl. 0, 1, -1 (symbolic form not readable: {why[:40]})",
+               where=fn.where())
 
 
 def _element_calls(ctx, fn, getter_suffix, callee_name):
